@@ -91,6 +91,42 @@ def t1(ctx):
                "its length (membership/order of the list itself, label lookups and copies are bounded, T2); Taxon.__hash__/__eq__ are identity")
     for c in CONTRACTS:
         verify_contract(ctx, SUITE, c, sentinels=False, replay=dreplay.replay_by_search(states))
+    # "label lookups ... under the namespace's, or the CALL's, case-sensitivity setting": every lookup method hands its is_case_sensitive to
+    # the one function that matches labels (_lookup_label)
+    from dpvc import forwarding
+    forwarding.obligations(ctx, "is_case_sensitive", lambda mn: mn == "dendropy.datamodel.taxonmodel", "case-flag-reaches", exact=False,
+                           native=native_case_flag_ignored)
+
+
+def native_case_flag_ignored(modname=None, qual=None):
+    """every lookup with the call's flag set against the namespace's setting"""
+    import dendropy
+    for ns_cs in (False, True):
+        for call_cs in (False, True):
+            ns = dendropy.TaxonNamespace(["Human", "chimp"], is_case_sensitive=ns_cs)
+            want = None if call_cs else "Human"
+            probes = [("get_taxon", lambda: getattr(ns.get_taxon("HUMAN", is_case_sensitive=call_cs), "label", None), want),
+                      ("has_taxon_label", lambda: ns.has_taxon_label("HUMAN", is_case_sensitive=call_cs), not call_cs),
+                      ("findall", lambda: [t.label for t in ns.findall("HUMAN", is_case_sensitive=call_cs)], [] if call_cs else ["Human"]),
+                      ("get_taxa", lambda: [t.label for t in ns.get_taxa(["HUMAN"], is_case_sensitive=call_cs)], [] if call_cs else ["Human"]),
+                      ("has_taxa_labels", lambda: ns.has_taxa_labels(["HUMAN"], is_case_sensitive=call_cs), not call_cs)]
+            for name, f, exp in probes:
+                try:
+                    got = f()
+                except Exception as e:  # noqa
+                    got = "%s: %s" % (type(e).__name__, e)
+                if got != exp:
+                    return dict(key="%s|ns=%r|call=%r" % (name, ns_cs, call_cs),
+                                outcome="%s('HUMAN', is_case_sensitive=%r) on a namespace ['Human', 'chimp'] with is_case_sensitive=%r gives %r, required %r"
+                                        % (name, call_cs, ns_cs, got, exp))
+            ns2 = dendropy.TaxonNamespace(["Human"], is_case_sensitive=ns_cs)
+            t = ns2.require_taxon("HUMAN", is_case_sensitive=call_cs)
+            labs = [x.label for x in ns2]
+            exp = ["Human", "HUMAN"] if call_cs else ["Human"]
+            if labs != exp:
+                return dict(key="require_taxon|ns=%r|call=%r" % (ns_cs, call_cs),
+                            outcome="require_taxon('HUMAN', is_case_sensitive=%r) on ['Human'] (namespace setting %r) leaves %r, required %r" % (call_cs, ns_cs, labs, exp))
+    return None
 
 
 # ----------------------------------------------------------------------------- native replay: reachable namespace states
@@ -169,6 +205,10 @@ def states(c):
 
 
 def replay(ctx, rec):
+    if str(rec.get("obligation", "")).startswith("case-flag-reaches"):
+        r = native_case_flag_ignored()
+        print(r or "every lookup honours the call's is_case_sensitive on the probes")
+        return r is None
     w = rec.get("witness", {})
     print(w.get("state"), "->", w.get("outcome"), w.get("failed_clauses"))
     st = w.get("state", "")
